@@ -72,7 +72,7 @@ func (w *stopWriter) Write(p []byte) (int, error) {
 	return len(p), nil
 }
 
-var c19Commands = []string{"step", "next", "finish", "continue", "s", "n", "f", "c", "", "print 40+2", "vars", "backtrace", "bogus", "step", "next", "next", "finish"}
+var c19Commands = []string{"step", "next", "finish", "continue", "s", "n", "f", "c", "", "print 40+2", "print leaf(7)", "vars", "backtrace", "bogus", "step", "next", "next", "finish"}
 
 type userSim struct {
 	log  *dbgLog
@@ -80,6 +80,7 @@ type userSim struct {
 	eof  bool
 	n    int
 	nEOF int
+	last string // last command the debugger recognised: an empty line repeats it
 }
 
 func (u *userSim) Read(prompt string) ([]byte, error) {
@@ -98,7 +99,10 @@ func (u *userSim) Read(prompt string) ([]byte, error) {
 	}
 	cmd := c19Commands[u.ch.Draw(len(c19Commands))]
 	u.log.ev = append(u.log.ev, dbgEvent{Kind: "cmd", Cmd: cmd})
-	if strings.HasPrefix(cmd, "print") {
+	if cmd != "" && cmd != "bogus" {
+		u.last = cmd
+	}
+	if eff := u.last; strings.HasPrefix(cmd, "print") || (cmd == "" && strings.HasPrefix(eff, "print")) {
 		u.log.inEval = true
 	}
 	return []byte(cmd + "\n"), nil
@@ -442,7 +446,7 @@ func runC19(t *testing.T, ch *sim.Choices, tier string) (o Outcome) {
 				o.fault("unknown_command", 1)
 			case "":
 				o.fault("empty_line_repeat", 1)
-			case "vars", "backtrace", "print 40+2":
+			case "vars", "backtrace", "print 40+2", "print leaf(7)":
 				o.fault("non_resuming_command_at_stop", 1)
 			}
 		}
